@@ -135,6 +135,8 @@ func (t *c15Trace) cause() string {
 		return "pair-served-twice"
 	case t.sharesExceeded:
 		return "share-rounding"
+	case len(t.retargeted) > 0:
+		return "records-replaced" // governance re-targeted a stream's records (possibly in the middle of an epoch)
 	}
 	return "unexplained"
 }
@@ -1285,6 +1287,18 @@ var c15Witnesses = map[string][]string{
 		"mkstream 9000,0 1:1 NOW 1 3",
 		"xferowner 0 102",
 		"begin 3601", "end", "begin 3601", "end", "begin 3601", "end",
+	},
+	// governance re-targets a half-served stream in the middle of the epoch (limit 1): gauge 3 gets the whole
+	// epoch amount on top of what gauge 1 already got; stream 1 hands out 1500 of 1000 and the next EndBlock
+	// cannot pay stream 2
+	"retarget-mid-epoch": {
+		"maxiter 1",
+		"begin 1", "end",
+		"mkgauge 0 1 0 1 0,0 NOW 1", "mkgauge 0 1 0 1 0,0 NOW 1", "mkgauge 0 1 0 1 0,0 NOW 1",
+		"lock 1 0 100 3600",
+		"fund 100 2000,0",
+		"mkstream 1000,0 1:1,3:1 NOW 1 1", "mkstream 1000,0 2:1 NOW 1 1",
+		"begin 3601", "end", "replace 1 3:1", "begin 10", "end", "begin 10", "end",
 	},
 	// a stream that becomes active at another identifier's epoch start is served in its first (partial)
 	// epoch only if the pointer of its own epoch has not yet reached the end
